@@ -208,6 +208,53 @@ func checkC15(w *World, r *Report) {
 
 	// ---- R15.3
 	registering := map[*ssa.Function]bool{}
+	// store helpers: unexported functions that put a template into the cache whenever the cache
+	// flag is on (every path to their return with the flag on passes the map update)
+	storeHelpers := map[*ssa.Function]int{}
+	var storeHelper func(f *ssa.Function) bool
+	storeHelper = func(f *ssa.Function) bool {
+		if st, ok := storeHelpers[f]; ok {
+			return st == 2
+		}
+		storeHelpers[f] = 1
+		if f.Pkg == nil || f.Pkg.Pkg.Path() != twigPath || len(f.Blocks) == 0 {
+			return false
+		}
+		has := false
+		instrsOf(f, func(in ssa.Instruction) {
+			if mu, ok := in.(*ssa.MapUpdate); ok && isTemplatesMap(mu.Map) {
+				has = true
+			}
+		})
+		if !has {
+			return false
+		}
+		cacheFalse := func(b *ssa.BasicBlock, i int) bool {
+			return anyEdgeFact(b, i, func(v ssa.Value, trueIdx int) bool {
+				if _, ok := fieldLoad(v, "Environment", "cache"); ok {
+					return i != trueIdx
+				}
+				return false
+			})
+		}
+		direct := func(in ssa.Instruction) bool {
+			mu, ok := in.(*ssa.MapUpdate)
+			return ok && isTemplatesMap(mu.Map)
+		}
+		all, nret := true, 0
+		instrsOf(f, func(in ssa.Instruction) {
+			if _, isRet := in.(*ssa.Return); isRet {
+				nret++
+				if bad, _ := existsPathAvoiding(f, in, direct, cacheFalse); bad {
+					all = false
+				}
+			}
+		})
+		if all && nret > 0 {
+			storeHelpers[f] = 2
+		}
+		return storeHelpers[f] == 2
+	}
 	for _, nm := range []string{"RegisterString", "RegisterTemplate", "RegisterCompiledTemplate"} {
 		m := w.tryMethod("Engine", nm)
 		if m == nil {
@@ -228,7 +275,7 @@ func checkC15(w *World, r *Report) {
 				return true
 			}
 			if c, ok := in.(*ssa.Call); ok {
-				if f := c.Call.StaticCallee(); f != nil && registering[f] {
+				if f := c.Call.StaticCallee(); f != nil && (registering[f] || storeHelper(f)) {
 					return true
 				}
 			}
@@ -256,6 +303,32 @@ func checkC15(w *World, r *Report) {
 		}
 		// the key of the store is the registered name
 		instrsOf(fn, func(in ssa.Instruction) {
+			// through a store helper: the helper stores under its own string parameter, and the
+			// argument passed for it is this function's name parameter
+			if c, ok := in.(*ssa.Call); ok {
+				if h := c.Call.StaticCallee(); h != nil && !registering[h] && storeHelper(h) {
+					okKey := false
+					instrsOf(h, func(hi ssa.Instruction) {
+						if mu, ok := hi.(*ssa.MapUpdate); ok && isTemplatesMap(mu.Map) {
+							if hp, ok := mu.Key.(*ssa.Parameter); ok {
+								for i, fp := range h.Params {
+									if fp == hp && i < len(c.Call.Args) {
+										if ap, ok := c.Call.Args[i].(*ssa.Parameter); ok && types.Identical(ap.Type(), types.Typ[types.String]) {
+											okKey = true
+										}
+									}
+								}
+							}
+						}
+					})
+					if okKey {
+						r.ok("R15.3", ssaName(fn), "stored under the registered name", w.posOf(in.Pos()), "the store helper "+h.Name()+" is handed the name parameter as key", true)
+					} else {
+						r.bad("R15.3", ssaName(fn), "stored under the registered name", w.posOf(in.Pos()), "the template is stored under a key other than the name it is registered with")
+					}
+				}
+				return
+			}
 			mu, ok := in.(*ssa.MapUpdate)
 			if !ok || !isTemplatesMap(mu.Map) {
 				return
